@@ -10,7 +10,8 @@ Or(a, b) == [k |-> "or", l |-> a, r |-> b]
 LimitsNone == {LNone}
 LimitsAll == {LNone, EC(0), EC(1), EC(2), EC(3), ST(0), ST(1), ST(2), ST(3),
               And(EC(1), ST(1)), And(EC(2), ST(0)), Or(EC(2), ST(1)), Or(EC(3), ST(0)),
-              Or(And(EC(1), ST(1)), EC(3)), And(Or(EC(1), ST(2)), ST(1))}
+              Or(And(EC(1), ST(1)), EC(3)), And(Or(EC(1), ST(2)), ST(1)),
+              Or(EC(3), EC(1)), Or(EC(1), EC(3)), Or(ST(2), ST(0)), Or(ST(0), ST(2)), Or(Or(EC(3), ST(2)), EC(1))}
 LimitsSome == {LNone, EC(2), ST(1), Or(EC(3), ST(2))}
 
 MenuSmall == {<<>>, <<0>>, <<1>>, <<0, 0>>, <<0, 1>>, <<2, 0>>}
